@@ -7,6 +7,7 @@ import (
 	"go/types"
 	"math"
 	"math/big"
+	"strings"
 
 	"golang.org/x/tools/go/ssa"
 )
@@ -159,7 +160,15 @@ func (e *Enc) instr(fr *Frame, b *ssa.BasicBlock, ins ssa.Instruction, guard T, 
 		e.nilCheck(fr, p, guard, x.Pos())
 		stt := x.X.Type().Underlying().(*types.Pointer).Elem().Underlying().(*types.Struct)
 		space, root, prefix, idxs, glob := e.ptrParts(p)
-		fr.vals[x] = Val{Typ: x.Type(), L: p.L, P: &PtrInfo{Space: space, Root: root, Prefix: prefix + "." + fieldName(stt, x.Field), Idxs: idxs, Glob: glob}}
+		npref := prefix + "." + fieldName(stt, x.Field)
+		if at, isArr := stt.Field(x.Field).Type().Underlying().(*types.Array); isArr && space == "H" && len(idxs) == 0 && !strings.Contains(npref, "[]") && !opaqueTypes[typeKey(stt.Field(x.Field).Type())] {
+			if _, basic := at.Elem().Underlying().(*types.Basic); basic {
+				// &obj.arr: the array lives in the slice backing store (see fieldArray)
+				fr.vals[x] = Val{Typ: x.Type(), L: []T{e.fieldArrayRef(root, npref+"[]", p.L[0])}, P: &PtrInfo{Space: "E", Root: at.Elem(), Prefix: ""}}
+				return
+			}
+		}
+		fr.vals[x] = Val{Typ: x.Type(), L: p.L, P: &PtrInfo{Space: space, Root: root, Prefix: npref, Idxs: idxs, Glob: glob}}
 	case *ssa.Field:
 		s := e.get(fr, x.X)
 		stt := x.X.Type().Underlying().(*types.Struct)
